@@ -55,6 +55,7 @@ type Anchors struct {
 	DeleteNodes                                          *ssa.Function
 	// aws
 	AwsIncrease, AwsDelete, AwsSetSize, AwsOneShot, AwsAttach, AwsTerminateOrphans   *ssa.Function
+	AwsFleetReq                                                                      *ssa.Function // the function holding the CreateFleet call: the fleet strategy itself, or a request helper under it
 	AwsBelongs, AwsNodes, AwsCreateFleetInput, AwsDecrease, AwsTargetSize            *ssa.Function
 	AwsMinSize, AwsMaxSize, AwsGetInstance, AwsProviderIDToInstanceID, AwsInstToProv *ssa.Function
 
@@ -571,6 +572,13 @@ func resolveAnchors(p *Prog) *Anchors {
 			return f
 		}
 		a.errs = a.errs[:nerr]
+		// … or methods of the group state they read
+		if a.TState != nil {
+			if f := a.methodLike(a.TState, name, like); f != nil {
+				return f
+			}
+			a.errs = a.errs[:nerr]
+		}
 		return a.fnLike(pkgController, name, like)
 	}
 	a.IsStarve = boolPred("isScaleOnStarve", func(f *ssa.Function) bool {
@@ -756,6 +764,7 @@ func resolveAnchors(p *Prog) *Anchors {
 			a.AwsSetSize = a.uniq(a.AwsSetSize, s.Fn, "set-capacity strategy")
 		case "W-EC2-FLEET":
 			a.AwsOneShot = a.uniq(a.AwsOneShot, s.Fn, "fleet strategy")
+			a.AwsFleetReq = a.AwsOneShot
 		case "W-ASG-ATT":
 			a.AwsAttach = a.uniq(a.AwsAttach, a.liftThinWrapper(s), "attach step")
 		case "W-EC2-TERM":
@@ -767,6 +776,7 @@ func resolveAnchors(p *Prog) *Anchors {
 			a.AwsTerminateOrphans = a.uniq(a.AwsTerminateOrphans, ot, "orphan terminator")
 		}
 	}
+	a.liftFleetStrategy()
 	if sp := p.SSAPkg[pkgAWS]; sp != nil {
 		_ = sp
 		a.AwsCreateFleetInput = a.fnLike(pkgAWS, "createFleetInput", func(f *ssa.Function) bool {
@@ -1126,4 +1136,27 @@ func (a *Anchors) liftThinWrapper(s Site) *ssa.Function {
 		return c
 	}
 	return s.Fn
+}
+
+// liftFleetStrategy: the fleet strategy is what IncreaseSize calls; when the CreateFleet request
+// lives in a helper of its own (it returns the acquired ids) the strategy is that helper's single
+// caller, the function that goes on to the attach step.
+func (a *Anchors) liftFleetStrategy() {
+	p := a.p
+	if a.AwsOneShot == nil || a.AwsAttach == nil {
+		return
+	}
+	req := a.AwsOneShot
+	if p.reachCut([]*ssa.Function{req}, nil)[a.AwsAttach] {
+		return
+	}
+	cs := p.callers[req]
+	if len(cs) != 1 || !p.inRepo(cs[0]) || len(callsTo(cs[0], req)) != 1 {
+		return
+	}
+	if !p.reachCut([]*ssa.Function{cs[0]}, nil)[a.AwsAttach] {
+		return
+	}
+	a.AwsFleetReq = req
+	a.AwsOneShot = cs[0]
 }
